@@ -27,6 +27,23 @@ func VerifNewSupervisor() *VerifSupervisor {
 	return v
 }
 
+// VerifNewSupervisorBehind builds a goroutine-less supervisor like VerifNewSupervisor and installs it as the
+// supervisor of c, which must be (or wrap) the shared engine and must not be open. The returned runtime is
+// the connection itself as the transports see it, so a harness can reach the supervisor through the real
+// TCPUp / TCPDown / CommitSelected / SelectLost / T7Expired and thereby check how they are wired to it
+// (which injector they use, what they tag). ok is false if c is not the shared engine.
+func VerifNewSupervisorBehind(c Connection) (v *VerifSupervisor, rt TransportRuntime, ok bool) {
+	cc := verifUnwrap(c)
+	if cc == nil {
+		return nil, nil, false
+	}
+
+	v = VerifNewSupervisor()
+	cc.sup.Store(v.s)
+
+	return v, cc, true
+}
+
 func (v *VerifSupervisor) CommitConnected() bool  { return v.s.CommitConnected() }
 func (v *VerifSupervisor) CommitSelected() bool   { return v.s.CommitSelected() }
 func (v *VerifSupervisor) CommitSelectLost() bool { return v.s.CommitSelectLost() }
